@@ -315,6 +315,18 @@ def rule_free(ctx):
     ctx.ob('C16.free', f'{sp.fq}', ok, 'split partitions a block exactly (no overlap, no gap)', sp.node, mod)
 
 
+def rule_alloc_complete(ctx):
+    ctx.rule('C16.free', 'alloc says "no space" only because _find_available found nothing: no return precedes that search (a shortcut '
+                         'that looks at exact-size free lists or at the top alone misses a larger freed block that would serve the request)')
+    ci = ctx.repo.cls('sc3.synth._engine:ContiguousBlockAllocator')
+    f = ci.methods['alloc']
+    calls = [c for c in U.calls(f.node) if U.is_self_attr(c.func) and c.func.attr == '_find_available']
+    ctx.require(len(calls) == 1, 'C16.free', 'alloc: the call of _find_available vanished')
+    early = [norm(r)[:60] for r in walk_local(f.node) if isinstance(r, (ast.Return, ast.Raise)) and r.lineno < calls[0].lineno]
+    ctx.ob('C16.free', f'{f.fq}:search-before-refusal', not early,
+           f'alloc leaves with {early} before it has searched the free blocks', f.node, ci.module)
+
+
 def rule_node(ctx):
     ctx.rule('C16.node', 'NodeIDAllocator.alloc returns x | (user << K), wraps x+1 inside [init_temp, 2**K - 1], and users > 31 are refused')
     ci = ctx.repo.cls('sc3.synth._engine:NodeIDAllocator')
@@ -442,11 +454,15 @@ def rule_part(ctx):
 def run(ctx):
     rule_units(ctx)
     rule_free(ctx)
+    rule_alloc_complete(ctx)
     rule_node(ctx)
     rule_part(ctx)
 
 
 MUTANTS = [
+    dict(rule='C16.free', name='alloc refuses before searching the free blocks (seed C16-g)', file='sc3/synth/_engine.py',
+         old="    def alloc(self, n=1):\n        block = self._find_available(n)",
+         new="    def alloc(self, n=1):\n        if n not in self._freed and self.top + n - self.addr_offset > self.size:\n            return None\n        block = self._find_available(n)"),
     dict(rule='C16.part', name='client id change does not rebuild the buffer allocators', file='sc3/synth/server.py',
          old="        self._new_bus_allocators()\n        self._new_buffer_allocators()\n", new="        self._new_bus_allocators()\n"),
     dict(rule='C16.part', name='allocators rebuilt before the client id is stored', file='sc3/synth/server.py',
